@@ -15,7 +15,7 @@ from vt import symx
 from vt.symx import SymStr
 from vt.oblig import Obligation
 
-from traits.api import (HasTraits, Int, Str, Instance, DelegatesTo, PrototypedFrom, TraitError, Range,
+from traits.api import (ComparisonMode, HasTraits, Int, Str, Instance, DelegatesTo, PrototypedFrom, TraitError, Range,
                         push_exception_handler, pop_exception_handler)
 from traits.trait_errors import DelegationError
 from traits.trait_types import Delegate
@@ -84,7 +84,7 @@ def target_name(style, dn):
     return {"same": dn, "explicit": "other", "prefixstar": "p_" + dn, "star": "cp_" + dn}[style]
 
 
-def mk_classes(style, proto, topstyle=None, subclassing="none"):
+def mk_classes(style, proto, topstyle=None, subclassing="none", flavour=0):
     """T <- D (deferring attribute `dn`, prefix style `style`, class prefix 'cp_') [<- DD (attribute x, prefix style `topstyle`,
     class prefix 'zz_')].  T carries every name any (mis)resolution could produce, each with a distinct default."""
     kind = PrototypedFrom if proto else DelegatesTo
@@ -95,7 +95,15 @@ def mk_classes(style, proto, topstyle=None, subclassing="none"):
         for cand in (base, "other", "p_" + base, "cp_" + base, TOP_PREFIX + base):
             if cand not in names:
                 names.append(cand)
-    T = type("T", (HasTraits,), {n_: Range(0, 100, 60 + i) for i, n_ in enumerate(names)})
+    # flavour 1: delegate objects are value-style - every T compares equal to every other T (the link is a matter of identity);
+    # flavour 2: the target traits announce every assignment (comparison_mode none), also of the identical object
+    extra = {}
+    if flavour == 1:
+        extra = {"__eq__": lambda self, other: isinstance(other, HasTraits) and type(other).__name__ == "T",
+                 "__ne__": lambda self, other: not (isinstance(other, HasTraits) and type(other).__name__ == "T"),
+                 "__hash__": lambda self: 11}
+    md = {"comparison_mode": ComparisonMode.none} if flavour == 2 else {}
+    T = type("T", (HasTraits,), dict({n_: Range(0, 100, 60 + i, **md) for i, n_ in enumerate(names)}, **extra))
     if subclassing == "redefine":
         # the base class declares the deferring attribute differently (explicit name, another target attribute); the subclass
         # in use redefines it in the style under test: nothing of the base declaration may survive
@@ -123,7 +131,8 @@ def history_harness(style, proto, k, chain, subclassing="none"):
             pop_exception_handler()
 
     def body(ex, errors):
-        T, D, DD, tn = mk_classes(style, proto, chain, subclassing)
+        flavour = ex.choice("flavour", 3)
+        T, D, DD, tn = mk_classes(style, proto, chain, subclassing, flavour)
         decoy = "other" if tn != "other" else "x"          # another attribute of the delegate: never the target
         t1, t2 = T(), T()
         setattr(t2, tn, 50)
@@ -139,11 +148,24 @@ def history_harness(style, proto, k, chain, subclassing="none"):
         trace = []
         val = 10
         for step in range(k):
-            op = ex.choice("op%d" % step, 8)
+            op = ex.choice("op%d" % step, 9)
             val += 1
             calls.clear()
             obs_calls.clear()
-            if op == 0:                                   # assign via the deferring object
+            if op == 8:                                   # the target's current value is assigned to it again (identical object)
+                same = getattr(cur, tn)
+                tcalls = []
+                h_ = lambda new: tcalls.append(new)
+                cur.on_trait_change(h_, tn)
+                setattr(cur, tn, same)
+                cur.on_trait_change(h_, tn, remove=True)
+                trace.append("target=same")
+                if not local:
+                    ex.check(len(calls) == len(tcalls), "while linked, the deferring attribute's handlers hear exactly the change "
+                                                        "notifications the target's own handlers hear (also of an identical value)")
+                else:
+                    ex.check(calls == [] and obs_calls == [], "after the link is broken, changes of the prototype do not notify")
+            elif op == 0:                                   # assign via the deferring object
                 top.x = val
                 trace.append("top=%d" % val)
                 if proto:
